@@ -158,6 +158,25 @@ impl<'a> ZoneHydrator<'a> {
                     );
                 }
             }
+            // Zones built by index pruners carry no uid; when they are mixed with zones from an
+            // all-zones fallback (which do), hydrate them with the query's event type.
+            let without_uid: Vec<usize> = candidate_zones
+                .iter()
+                .enumerate()
+                .filter(|(_, zone)| zone.uid().is_none())
+                .map(|(idx, _)| idx)
+                .collect();
+            if !without_uid.is_empty() {
+                if let Some(uid) = self.plan.event_type_uid().await {
+                    let loader = ZoneValueLoader::new(self.plan.segment_base_dir.clone(), uid)
+                        .with_caches(self.caches);
+                    for idx in without_uid {
+                        if let Some(zone) = candidate_zones.get_mut(idx) {
+                            loader.load_zone_values(std::slice::from_mut(zone), &columns);
+                        }
+                    }
+                }
+            }
         }
 
         if tracing::enabled!(tracing::Level::DEBUG) {
